@@ -166,6 +166,11 @@ def run_seq(spec, rec: Recorder):
                     if i % 10 == 9:
                         c = dpapi_ng.KeyCache()
                         online.load_into_cache(c, rkid, rk)
+                    if spec.get("vary") and i % 2:
+                        import random as _random
+
+                        _random.seed(i % 3)  # an application re-seeding the global PRNG around its own work
+                        rec.count("global_prng_reseeds")
                     if i % 4 == 3:
                         blob = loop.run_until_complete(dpapi_ng.async_ncrypt_protect_secret(pt, sid, root_key_identifier=rkid, cache=c))
                     else:
@@ -196,6 +201,13 @@ def run_seq(spec, rec: Recorder):
                     sid_i = "S-1-5-21-1-2-3-%d" % (1104 + (i % 5 if spec["name"] != "dc-seed" else 0))
                     if i % 7 == 0:
                         cfg.now = (361, (i // 7) % 32, (i // 3) % 32)
+                    if i % 2:
+                        # what applications do around their own work: re-seed the global pseudo random generators (a value
+                        # recurring every few calls).  Fresh randomness must not hang on state an application may reset.
+                        import random as _random
+
+                        _random.seed(i % 3)
+                        rec.count("global_prng_reseeds")
                     if i % 4 == 3:
                         blob = loop.run_until_complete(dpapi_ng.async_ncrypt_protect_secret(b"same plaintext", sid_i, root_key_identifier=rk_arg, cache=use_cache, **kw))
                     else:
